@@ -89,6 +89,36 @@ class RefProgram:
                     "on_exit_state"))
         self.referenced = ref
 
+    def unresolved(self, roles, tag):
+        """Names referenced inline (not by naming convention) that none of the given providers has:
+        the constructor refuses such a machine (InvalidDefinition) before anything runs."""
+        def provided(name):
+            m = self.prog["cbs"].get("machine." + name)
+            if m is not None and m.get("style") in ("callable", "decorator"):
+                return True
+            for role in roles:
+                meta = self.prog["cbs"].get(f"{role}.{name}")
+                if meta is None:
+                    continue
+                if meta.get("only_for") is not None and tag not in meta["only_for"]:
+                    continue
+                return True
+            return False
+
+        missing = []
+        for t in self.trans:
+            for g in ("validators", "cond", "unless", "before", "on", "after"):
+                for expr in t.get(g, []):
+                    for name in _expr_names(expr):
+                        if not provided(name) and name not in missing:
+                            missing.append(name)
+        for s in self.states:
+            for g in ("enter", "exit"):
+                for name in s.get(g, []):
+                    if not provided(name) and name not in missing:
+                        missing.append(name)
+        return missing
+
     def allowed(self, sid):
         out = []
         for t in self.trans_from[sid]:
@@ -589,6 +619,12 @@ class Ref:
             self.model_state.setdefault(inst.model_tag, None)
         execs = []
         out = {"res": None, "exc": None, "execs": execs}
+        missing = rp.unresolved(roles, op["inst"])
+        if missing:
+            out["exc"] = {"cls": "InvalidDefinition", "missing": missing}
+            out["state"] = None
+            out["engine"] = inst.engine
+            return out
         try:
             inst.construct(execs)
         except RefRaise as e:
